@@ -359,7 +359,7 @@ def check(case, res):
     if m.get("kind") == "wrongmod":
         from . import c17
         return c17.check(case, res)
-    if m.get("kind") in ("decl", "forall", "vary", "tupitem"):
+    if m.get("kind") in ("decl", "forall", "vary", "tupitem", "refuse"):
         return check_extra(case, res, vs)
     st = res["steps"]
     kind = m["kind"]
@@ -564,6 +564,32 @@ def vary_gen(tier):
     return gen
 
 
+# a refused mutation leaves every container as it was (also a null row, a null table, the receiver's other elements)
+REFUSE_SETUP = ('t = tab(2, 5); ts = tab(2, "a"); tt = tab(3, tab(1, 1)); tt.put(0, null); tn = tab(0, 1); tn = null; u = tup(1, "a"); '
+                'tr = tab(2, tup(1, "a")); td = tab(2, 2.5); tb = tab(1, raw("ab")); function f1(x) return undefined is begin return x; end;')
+REFUSE_RECV = ["t", "ts", "tt", "tt.at(0)", "tt.at(1)", "tn", "tr", "td", "tb", "tb.at(0)", "ts.at(0)"]
+REFUSE_OPS = ["%s.concat(f1(%s));", "%s.put(0, f1(%s));", "%s.insert(0, f1(%s));", "%s.put(7, f1(%s));", "%s.insert(9, f1(%s));"]
+
+
+def refuse_gen(tier):
+    def gen():
+        n = 0
+        for recv in REFUSE_RECV:
+            for opt in REFUSE_OPS:
+                for x in VARY:
+                    stmt = opt % (recv, x)
+                    ops = [op_ctx(), op_run(REFUSE_SETUP), op_dump(0), op_run(stmt), op_dump(0)]
+                    yield Case("rf%d" % n, ops, {"kind": "refuse", "stmt": stmt})
+                    n += 1
+        for item in ("1", "2"):
+            for x in VARY:
+                stmt = "u.set@%s(f1(%s));" % (item, x)
+                ops = [op_ctx(), op_run(REFUSE_SETUP), op_dump(0), op_run(stmt), op_dump(0)]
+                yield Case("rf%d" % n, ops, {"kind": "refuse", "stmt": stmt})
+                n += 1
+    return gen
+
+
 def tupitem_gen(tier):
     """tup() takes scalars only (the manual: nesting and tables are not allowed): also when the item's type is only known at run time"""
     def gen():
@@ -580,6 +606,15 @@ def tupitem_gen(tier):
 def check_extra(case, res, vs):
     m = case.meta
     st = res["steps"]
+    if m["kind"] == "refuse":
+        before, run, after = st[2].get("vars", {}), st[3], st[4].get("vars", {})
+        if st[1].get("r") != "ok":
+            vs.append(Violation("harness:refuse-setup", "%s" % st[1], case))
+        elif run.get("r") in ("rerr", "perr") and before != after:
+            diff = {k: (before.get(k), after.get(k)) for k in set(before) | set(after) if before.get(k) != after.get(k)}
+            vs.append(Violation("refused-but-changed:" + m["stmt"].split("(f1")[0],
+                                "%s was refused (%s) but changed %s" % (m["stmt"], run.get("msg"), diff), case))
+        return vs, True
     if m["kind"] == "tupitem":
         run, dump = st[2], st[3].get("vars", {})
         compound = m["ty"] in ("table", "tableS", "tuple") or m["x"] == "tab()"
@@ -710,6 +745,7 @@ def run(tier):
     total.merge(explore("%s-%s-decls" % (PROP, tier), decl_gen(tier), check, chunk=50, deadline=deadline))
     total.merge(explore("%s-%s-varying" % (PROP, tier), vary_gen(tier), check, chunk=100, deadline=deadline))
     total.merge(explore("%s-%s-tuple-items" % (PROP, tier), tupitem_gen(tier), check, chunk=50, deadline=deadline))
+    total.merge(explore("%s-%s-refused-unchanged" % (PROP, tier), refuse_gen(tier), check, chunk=100, deadline=deadline))
     # module objects: a table / tuple made for objects of one module never holds an object of another one (the programs and the
     # oracle are those of C17's wrong-module family: direct stores, and stores of what functions with declared or opaque results return)
     from . import c17
